@@ -87,6 +87,13 @@ pub fn universe(quick: bool, with_compounds: bool, with_option: bool) -> Vec<T> 
             u.push(T::Cmp(Tag::Holder, vec![some(&T::I(1)), T::I(1)]));
             u.push(T::Cmp(Tag::Holder, vec![none.clone(), T::I(1)]));
             u.push(T::Cmp(Tag::Holder, vec![some(&z), z.clone()]));
+            // a term field before the Option field; a field typed as another compound
+            u.push(T::Cmp(Tag::Holder2, vec![x.clone(), some(&y)]));
+            u.push(T::Cmp(Tag::Holder2, vec![T::I(1), none.clone()]));
+            u.push(T::Cmp(Tag::Holder2, vec![z.clone(), some(&T::I(1))]));
+            u.push(T::Cmp(Tag::Outer, vec![x.clone(), T::Cmp(Tag::Named, vec![y.clone(), T::I(1)])]));
+            u.push(T::Cmp(Tag::Outer, vec![T::I(1), T::Cmp(Tag::Named, vec![z.clone(), z.clone()])]));
+            u.push(T::Cmp(Tag::Outer, vec![T::I(1), y.clone()]));
         }
     }
     u.push(T::list(vec![T::list(vec![x.clone()])]));
